@@ -139,7 +139,35 @@ def free_cases(rng, mix, n, first_id):
     return cases
 
 
-# --------------------------------------------------------------------------- M-level folding
+# --------------------------------------------------------------------------- folding
+
+
+def pfold(specdir, segs, timeout=1500):
+    """P-level verdicts: one TLC pass over the concatenated segments with LifecycleObs.tla. TLC evaluates the
+    property predicates on every state and prints the violated ones (it is the judge); nothing here decides.
+    Returns (verdicts {index of segment: (line_in_seg, [names])}, ok, states, transitions, error)."""
+    work = tempfile.mkdtemp(prefix="pfold.", dir=os.path.dirname(specdir))
+    V.copy_specs(specdir, work)
+    starts, n = [], 0
+    with open(os.path.join(work, "trace.ndjson"), "w") as f:
+        for s in segs:
+            starts.append(n + 1)
+            for ln in s:
+                f.write(json.dumps(ln) + "\n")
+                n += 1
+    res = V.tlc(work, "LifecycleObs", cfg="LifecycleObs.cfg", workers=1, timeout=timeout, deadlock=False)
+    shutil.rmtree(work, ignore_errors=True)
+    if res.timed_out or res.error or res.violation:
+        return {}, False, res.distinct, res.generated, res.error or res.violation or "timeout"
+    if res.depth != n + 1:
+        return {}, False, res.distinct, res.generated, "LifecycleObs consumed %d of %d lines (unreadable event at line %d)" % (
+            res.depth - 1, n, res.depth)
+    verdicts = {}
+    for cl, ln, names in re.findall(r'<<"VIOLATED", (\d+), (\d+), <<(.*?)>>>>', res.out):
+        i = starts.index(int(cl))
+        if i not in verdicts or int(ln) - int(cl) + 1 < verdicts[i][0]:
+            verdicts[i] = (int(ln) - int(cl) + 1, re.findall(r'"(\w+)"', names))
+    return verdicts, True, res.distinct, res.generated, None
 
 
 def mfold(specdir, segs, timeout=900, max_rounds=8):
@@ -227,7 +255,7 @@ def run(chk):
             return cfg, V.tlc(w, "MCLifecycleGen", cfg=cfg, workers=1, timeout=900, deadlock=False, dump=dot), dot
         return cfg, V.tlc(w, "MCLifecycle", cfg=cfg, workers=2, timeout=600), None
 
-    pool = concurrent.futures.ThreadPoolExecutor(max_workers=7)
+    pool = concurrent.futures.ThreadPoolExecutor(max_workers=12)
     jobs = {}
     if not chk.replay:
         todo = [("MCLifecycle.cfg", nstop, nrun), ("MCLifecycleGen.cfg", nstop, 2)] + [(c, 3, 2) for c, _, _ in expect]
@@ -235,12 +263,44 @@ def run(chk):
     # ---- 2. build the driver (no cgo: the Go runtime's deadlock detector must be active)
     drv = V.build_driver("c17drv", chk.bindir, tags="verif,netgo,osusergo")
 
-    # ---- 3. cases
-    batches = {}
+    # ---- 3./4. cases, run on the real code (free-running batches start while TLC still works)
+    specs = {}
+
+    def run_batch(item):
+        name, cases = item
+        cf = os.path.join(chk.tmp, "cases-%s.ndjson" % name)
+        of = os.path.join(chk.tmp, "trace-%s.ndjson" % name)
+        with open(cf, "w") as f:
+            for c in cases:
+                f.write(json.dumps(c) + "\n")
+        rc, o = V.run([drv, "-mode", "sup", "-cases", cf, "-out", of, "-stall",
+                       "240" if name in ("proto", "free-leaf", "free-maps", "replay") else "150"],
+                      timeout=1500 if quick else 2400)
+        if rc != 0:
+            return name, cases, [], "FAILED rc=%s: %s" % (rc, o[-1500:])
+        return name, cases, V.split_cases(V.read_jsonl(of)), o.strip().splitlines()[-1]
+
+    futs = []
     if chk.replay:
         rp = json.load(open(chk.replay))
-        batches["replay"] = [rp["case"]["spec"]]
+        futs.append(pool.submit(run_batch, ("replay", [rp["case"]["spec"]])))
     else:
+        sizes = {"leaf": 120, "maps": 300, "nested": 30, "fd": 10, "tcp": 4} if quick else \
+                {"leaf": 1500, "maps": 4000, "nested": 300, "fd": 80, "tcp": 30}
+        nid = 100000
+        for mix, n in sizes.items():
+            futs.append(pool.submit(run_batch, ("free-" + mix, free_cases(rng, mix, n, nid))))
+            nid += 100000
+        _, res, _ = jobs["MCLifecycleGen.cfg"].result()
+        chk.add_tlc("MCLifecycleGen k=%d (generator: harness commands at quiescent states)" % nstop, res)
+        if not res.ok:
+            raise V.Inconclusive("generator TLC run failed: %s" % (res.error or res.violation))
+        init, last, out = parse_dot(os.path.join(chk.tmp, "tlc-MCLifecycleGen.cfg", "gen.dot"))
+        cmds, nedges = walks_from_graph(init, last, out, rng, 120 if quick else 1500)
+        chk.notes["generator_graph"] = {"states": len(last), "command_edges": nedges, "walks": len(cmds)}
+        futs.append(pool.submit(run_batch, ("proto", [{"id": i + 1, "mode": "proto", "mix": "maps", "bound": BOUND,
+                                                       "steps": c, "closeerr": i % 3 == 0} for i, c in enumerate(cmds)])))
+        # design-level results
         _, res, _ = jobs["MCLifecycle.cfg"].result()
         chk.add_tlc("MCLifecycle fixed k=%d runs=%d: no deadlock, RunsAtMostOnce, NoLateCommit, ClosedAtMostOnce, "
                     "ClosedOnReturn, StopMeansStopped, SendNeverBlocks, liveness EveryStopReturns" % (nstop, nrun), res)
@@ -255,84 +315,60 @@ def run(chk):
             if not (r2.violation and want in r2.violation):
                 chk.inconclusive.append("vacuity: %s no longer yields the expected counterexample (%s): %s" % (
                     cfg, want, r2.violation or r2.error or "none"))
-        _, res, dot = jobs["MCLifecycleGen.cfg"].result()
-        chk.add_tlc("MCLifecycleGen k=%d (generator: harness commands at quiescent states)" % nstop, res)
-        if not res.ok or not os.path.exists(dot):
-            raise V.Inconclusive("generator TLC run failed: %s" % (res.error or res.violation))
-        init, last, out = parse_dot(dot)
-        cmds, nedges = walks_from_graph(init, last, out, rng, 120 if quick else 1500)
-        chk.notes["generator_graph"] = {"states": len(last), "command_edges": nedges, "walks": len(cmds)}
-        batches["proto"] = [{"id": i + 1, "mode": "proto", "mix": "maps", "bound": BOUND, "steps": c,
-                             "closeerr": i % 3 == 0} for i, c in enumerate(cmds)]
-        sizes = {"leaf": 120, "maps": 300, "nested": 30, "fd": 10, "tcp": 4} if quick else \
-                {"leaf": 1500, "maps": 4000, "nested": 300, "fd": 80, "tcp": 30}
-        nid = 100000
-        for mix, n in sizes.items():
-            batches["free-" + mix] = free_cases(rng, mix, n, nid)
-            nid += 100000
-
-    # ---- 4. run the real code
-    specs = {}
-
-    def run_batch(item):
-        name, cases = item
-        cf = os.path.join(chk.tmp, "cases-%s.ndjson" % name)
-        of = os.path.join(chk.tmp, "trace-%s.ndjson" % name)
-        with open(cf, "w") as f:
-            for c in cases:
-                f.write(json.dumps(c) + "\n")
-        rc, o = V.run([drv, "-mode", "sup", "-cases", cf, "-out", of], timeout=1500 if quick else 2400)
-        if rc != 0:
-            raise V.Inconclusive("c17drv batch %s failed rc=%s: %s" % (name, rc, o[-1500:]))
-        return name, V.split_cases(V.read_jsonl(of)), o.strip().splitlines()[-1]
 
     segs = []
-    with concurrent.futures.ThreadPoolExecutor(max_workers=3) as ex:
-        for name, ss, summary in ex.map(run_batch, sorted(batches.items())):
-            chk.notes.setdefault("driver_batches", {})[name] = "%d cases; %s" % (len(ss), summary)
-            by_id = {c["id"]: c for c in batches[name]}
-            for s in ss:
-                specs[id(s)] = by_id.get(s[0].get("id"))
-            segs += ss
+    for fu in futs:
+        name, cases, ss, summary = fu.result()
+        chk.notes.setdefault("driver_batches", {})[name] = "%d cases recorded; %s" % (len(ss), summary)
+        if summary.startswith("FAILED"):
+            chk.inconclusive.append("c17drv batch %s: %s" % (name, summary))
+        by_id = {c["id"]: c for c in cases}
+        for s in ss:
+            specs[id(s)] = by_id.get(s[0].get("id"))
+        stuck = [s for s in ss if s[-1].get("why") == "watchdog"]
+        if stuck or len(ss) < len(cases):
+            chk.inconclusive.append("c17drv batch %s: %d case(s) made no progress and were given up, %d not executed (the Go "
+                                    "runtime cannot prove a deadlock while timers / the netpoller are alive)" % (
+                                        name, len(stuck), len(cases) - len(ss)))
+        segs += [s for s in ss if s[-1].get("why") != "watchdog"]
     incomplete = [s for s in segs if s[-1].get("e") != "end"]
     if incomplete:
         raise V.Inconclusive("%d recorded cases have no end event (driver problem)" % len(incomplete))
 
     # ---- 5. P-level verdicts (TLC folds every recorded execution into LifecycleObs.tla)
     chunks = 4 if quick else 12
-    obs = V.fold_traces(work, "LifecycleObs", "LifecycleObs.cfg", segs, timeout=1500, chunks=chunks, max_rounds=12)
-    chk.states += obs["states"]
-    chk.transitions += obs["transitions"]
-    chk.traces += obs["accepted"]
-    for e in obs["errors"]:
-        chk.inconclusive.append("LifecycleObs: " + e)
+    parts = [segs[i::chunks] for i in range(chunks) if segs[i::chunks]]
     bad_ids = set()
-    for r in obs["rejected"]:
-        seg = r["seg"]
-        bad_ids.add(id(seg))
-        if r["kind"] != "invariant":
-            chk.inconclusive.append("LifecycleObs cannot read case %s (event %d): %s" % (
-                seg[0].get("id"), r["line_in_seg"], seg[min(r["line_in_seg"], len(seg)) - 1]))
+    reported = {}
+    for part, (verdicts, ok, st, tr, err) in zip(parts, pool.map(lambda p: pfold(work, p), parts)):
+        chk.states += st
+        chk.transitions += tr
+        if not ok:
+            chk.inconclusive.append("LifecycleObs: " + str(err))
             continue
-        inv = "rejected"
-        for name in ("RunsAtMostOnce", "NoCommitAfterStopReturned", "ClosedExactlyOnce", "DistinctOutcomes",
-                     "EveryStopReturns", "StopsAtLabelBoundary"):
-            if name in r["text"]:
-                inv = name
-        where = [ln.get("where") for ln in seg if ln.get("e") == "end" and ln.get("why") == "deadlock"]
-        what = "real MPCalContext execution violates %s in case %s (mode %s, mix %s), event %d of the case" % (
-            inv, seg[0].get("id"), seg[0].get("mode"), seg[0].get("mix"), r["line_in_seg"])
-        if where:
-            what += "; Go runtime: all goroutines asleep, parked at " + "; ".join(where[0] or [])
-        chk.violation("C17:%s:mode=%s:mix=%s:%s" % (inv, seg[0].get("mode"), seg[0].get("mix"), shape(seg)), what,
-                      {"spec": specs.get(id(seg)), "segment": seg, "line_in_seg": r["line_in_seg"], "tlc": r["text"]})
+        chk.traces += len(part) - len(verdicts)
+        for i, (line, names) in sorted(verdicts.items()):
+            seg = part[i]
+            bad_ids.add(id(seg))
+            inv = names[0] if names else "rejected"
+            key = "C17:%s:mode=%s:mix=%s" % (inv, seg[0].get("mode"), seg[0].get("mix"))
+            reported[key] = reported.get(key, 0) + 1
+            if reported[key] > 1:
+                continue  # one replay per failing class; the count is in the evidence
+            where = [ln.get("where") for ln in seg if ln.get("e") == "end" and ln.get("why") == "deadlock"]
+            what = "real MPCalContext execution violates %s in case %s (mode %s, mix %s, %s), event %d of the case" % (
+                "+".join(names), seg[0].get("id"), seg[0].get("mode"), seg[0].get("mix"), shape(seg), line)
+            if where:
+                what += "; Go runtime: all goroutines asleep, parked at " + "; ".join(where[0] or [])
+            chk.violation(key, what, {"spec": specs.get(id(seg)), "segment": seg, "line_in_seg": line, "violated": names})
+    chk.notes["violating_cases_per_class"] = reported
 
     # ---- 6. M-level conformance (drift only)
     good = [s for s in segs if id(s) not in bad_ids]
     parts = [good[i::chunks] for i in range(chunks) if good[i::chunks]]
     macc = 0
-    with concurrent.futures.ThreadPoolExecutor(max_workers=chunks) as ex:
-        for acc, rej, st, tr, errs in ex.map(lambda p: mfold(work, p), parts):
+    if True:
+        for acc, rej, st, tr, errs in pool.map(lambda p: mfold(work, p), parts):
             macc += acc
             chk.states += st
             chk.transitions += tr
